@@ -6,7 +6,7 @@ from vf import monitors, timers, walk
 RULE = ('exhaustive: every ordered list of <=2 (quick) / <=3 (thorough, third level sampled) local triggers from '
         '{A,B}x{acquire, soft expire, hard expire, IKE rekey due, IKE lifetime over, DPD due} interleaved in every possible '
         'way with the delivery order of the in-flight datagrams, each leaf re-executed from a fresh handshake through the real '
-        'main_loop; plus seeded random walks (lossless and lossy with a final lossless drain that runs the retransmission timers; a request may be given up only after the built-in number of transmissions, chained follow-up requests included). '
+        'main_loop; plus seeded random walks (lossless and lossy with a final lossless drain that runs the retransmission timers; a request may be given up only after the built-in number of transmissions, chained follow-up requests included; where nothing was lost - the whole exhaustive part and the lossless walks - no request may be given up while the peer still holds the IKE_SA). '
         'A case is one action sequence; distinct = distinct action sequences; non-trivial = the collision monitor evaluated every '
         'step of it and the quiescence oracle ran at its end.')
 ASSUMPTIONS = ['both endpoints run the repository code with mirror-image configurations (honest peers)',
@@ -46,12 +46,19 @@ def run(ck):
         if ck.counters['leaves'] % 400 == 1:
             ck.sample({'actions': sc.sim.case['actions'], 'final': [s['state'] for s in sc.a.snapshot()] + [s['state'] for s in sc.b.snapshot()]})
 
+    # nothing is ever lost in the exhaustive part: a request given up by time-out while the peer still holds the IKE_SA is a deadlock resolved by the clock
+    xmons = mons + [timers.TimerMonitor(ck, judge_dpd=False)]
+
+    def lossless(sc):
+        sc.sim.lossless_run = True
+        return sc
+
     for n, trig in enumerate(trigger_lists(ck)):
         if not ck.mine(n):
             continue
         ck.seen('trigger_lists', tuple(trig))
         cap = 40000 if len(trig) < 3 else 300
-        leaves, nodes = walk.explore(lambda: walk.Scenario(seedbase + n, mons), trig, leaf, max_leaves=cap)
+        leaves, nodes = walk.explore(lambda: lossless(walk.Scenario(seedbase + n, xmons)), trig, leaf, max_leaves=cap)
         ck.count('interleavings', leaves)
         if len(trig) == 2:
             ck.count('pairs_explored')
@@ -71,6 +78,7 @@ def run(ck):
         if not sc.ok:
             ck.count('handshake_failed')
             continue
+        sc.sim.lossless_run = not lossy
         walk.random_walk(sc, rng, rng.randrange(8, 28), lossy=lossy)
         sc.settle()
         monitors.quiescence_check(ck, sc.sim, sc.a, sc.b, prefix='quiescence-lossy' if lossy else 'quiescence')
